@@ -954,3 +954,175 @@ func schemaVisitsBothLists(w *load.World, c *core.Collector) {
 		c.Add("VALID", "schema-visits-both-lists", core.OK, w.Position(f.Pos()), "", props...)
 	}
 }
+
+// allocatorMonotone: the next free id of an id allocator only counts up. Ids below it are in use
+// or on the free list; an allocator that is wound back ("the shard is empty now") hands the ids of
+// whatever was still alive out again and the new points overwrite the old ones' keys.
+func allocatorMonotone(w *load.World, c *core.Collector) {
+	props := []string{"C01", "C10"}
+	n := 0
+	bad := ""
+	for _, f := range w.Fns {
+		if load.PkgPath(f) != load.Mod+"/shard" || f.Synthetic != "" {
+			continue
+		}
+		for _, b := range f.Blocks {
+			for _, in := range b.Instrs {
+				s, ok := in.(*ssa.Store)
+				if !ok {
+					continue
+				}
+				fa, ok := s.Addr.(*ssa.FieldAddr)
+				if !ok || fieldOf(fa) != "shard.IdCounter.nextFreeId" {
+					continue
+				}
+				if _, fresh := ssax.Path(fa.X); fresh {
+					continue // the constructor fills in what it decoded
+				}
+				n++
+				okStep := false
+				if bo, isBo := s.Val.(*ssa.BinOp); isBo && bo.Op == token.ADD {
+					if ld, isLd := bo.X.(*ssa.UnOp); isLd && ld.Op == token.MUL {
+						if fb, isFa := ld.X.(*ssa.FieldAddr); isFa && fieldOf(fb) == "shard.IdCounter.nextFreeId" {
+							if k, isK := bo.Y.(*ssa.Const); isK && k.Value != nil && k.Uint64() >= 1 {
+								okStep = true
+							}
+						}
+					}
+				}
+				if !okStep {
+					bad = w.At(in)
+				}
+			}
+		}
+	}
+	switch {
+	case n == 0:
+		c.Add("PAIR", "allocator-monotone", core.Undecided, "", "no assignment to the id allocator's next free id found", props...)
+	case bad != "":
+		c.Add("PAIR", "allocator-monotone", core.Violation, bad, "the id allocator's next free id is set to something other than itself plus a positive constant: an allocator that is wound back hands out again the node ids of points that are still stored, and the new points overwrite their keys", props...)
+	default:
+		c.Add("PAIR", "allocator-monotone", core.OK, "", "", props...)
+	}
+}
+
+// reportedDistanceVerbatim: the distance a vector search reports for a point is the one the index
+// computed, not a function of it (clamped at zero, rounded): under the dot metric distances are
+// negative by definition, and the hybrid score is minus weight times that very number.
+func reportedDistanceVerbatim(w *load.World, c *core.Collector) {
+	props := []string{"C03", "C04"}
+	n := 0
+	bad := ""
+	isArith := func(v ssa.Value) bool {
+		switch x := v.(type) {
+		case *ssa.BinOp:
+			return true
+		case *ssa.Call:
+			if bi, ok := x.Call.Value.(*ssa.Builtin); ok {
+				return bi.Name() == "max" || bi.Name() == "min"
+			}
+			if g := x.Call.StaticCallee(); g != nil && g.Pkg != nil && g.Pkg.Pkg.Path() == "math" {
+				return true
+			}
+		}
+		return false
+	}
+	for _, f := range w.Fns {
+		p := load.PkgPath(f)
+		if (p != load.Mod+"/shard/index/vamana" && p != load.Mod+"/shard/index/flat") || f.Synthetic != "" {
+			continue
+		}
+		for _, b := range f.Blocks {
+			for _, in := range b.Instrs {
+				s, ok := in.(*ssa.Store)
+				if !ok {
+					continue
+				}
+				fa, ok := s.Addr.(*ssa.FieldAddr)
+				if !ok || fieldOf(fa) != "models.SearchResult.Distance" {
+					continue
+				}
+				n++
+				al, ok := s.Val.(*ssa.Alloc)
+				if !ok {
+					continue // the address of the element's own field
+				}
+				for _, r := range *al.Referrers() {
+					if st, ok := r.(*ssa.Store); ok && st.Addr == ssa.Value(al) && isArith(st.Val) {
+						bad = w.At(st)
+					}
+				}
+			}
+		}
+	}
+	switch {
+	case n < 2:
+		c.Add("RANK", "anchor:reported-distance", core.Undecided, "", fmt.Sprintf("found %d places where a vector search fills in the distance of a result, expected at least 2", n), props...)
+	case bad != "":
+		c.Add("RANK", "reported-distance-verbatim", core.Violation, bad, "the distance reported for a result is computed from the index's distance (clamped, rounded) instead of being it: under the dot metric every distance is negative, a clamp at zero reports 0 for all of them and a hybrid score of 0", props...)
+	default:
+		c.Add("RANK", "reported-distance-verbatim", core.OK, "", "", props...)
+	}
+}
+
+// argminComplete: a loop that keeps a running minimum of distances (the nearest centroid of a
+// sub-vector) looks at every candidate: it has no way out before the end other than an error. "A
+// distance of 0 cannot be beaten" holds for euclidean; under the dot metric distances are negative.
+func argminComplete(w *load.World, c *core.Collector) {
+	props := []string{"C04", "C20", "C08"}
+	n := 0
+	for _, f := range w.Fns {
+		if load.PkgPath(f) != load.Mod+"/shard/vectorstore" || f.Synthetic != "" {
+			continue
+		}
+		done := map[*ssa.BasicBlock]bool{}
+		for _, b := range f.Blocks {
+			ifi, ok := b.Instrs[len(b.Instrs)-1].(*ssa.If)
+			if !ok {
+				continue
+			}
+			bo, ok := ifi.Cond.(*ssa.BinOp)
+			if !ok || (bo.Op != token.LSS && bo.Op != token.GTR && bo.Op != token.LEQ && bo.Op != token.GEQ) {
+				continue
+			}
+			if bt, ok := bo.X.Type().Underlying().(*types.Basic); !ok || bt.Info()&types.IsFloat == 0 {
+				continue
+			}
+			// one side is the loop-carried best value: a phi at a loop header that dominates this
+			// block and whose back-edge value is the other side
+			for _, pr := range [][2]ssa.Value{{bo.X, bo.Y}, {bo.Y, bo.X}} {
+				phi, ok := pr[0].(*ssa.Phi)
+				if !ok || done[phi.Block()] || !phi.Block().Dominates(b) || !ssax.Reaches(b, phi.Block()) {
+					continue
+				}
+				carries := false
+				for _, e := range phi.Edges {
+					if e == pr[1] {
+						carries = true
+					}
+					if p2, ok := e.(*ssa.Phi); ok {
+						for _, e2 := range p2.Edges {
+							if e2 == pr[1] {
+								carries = true
+							}
+						}
+					}
+				}
+				if !carries {
+					continue
+				}
+				done[phi.Block()] = true
+				n++
+				key := fmt.Sprintf("argmin-complete:%s#%d", load.FnKey(f), n)
+				if ex := loopOtherExit(f, phi.Block()); ex != nil {
+					c.Add("COVERAGE", key, core.Violation, w.At(ex.Instrs[len(ex.Instrs)-1]), "the loop that keeps the smallest distance can be left before the last candidate: whatever stops it early (\"a distance of 0 cannot be beaten\") is wrong for a metric whose distances are negative (dot), and the wrong centroid is stored", props...)
+				} else {
+					c.Add("COVERAGE", key, core.OK, w.Position(phi.Pos()), "", props...)
+				}
+			}
+		}
+	}
+	if n == 0 {
+		c.Add("COVERAGE", "anchor:argmin", core.Undecided, "", "no running-minimum loop found in the vector stores", props...)
+	}
+}
